@@ -263,5 +263,126 @@ func c33Case(rt *rapid.T, rec *ev.Rec) {
 func TestC33(t *testing.T) {
 	rec := ev.New("C33", "rapid: node id, 2-5 peers (id, role flags 0-3, connection type 0-6), 1-6 packet templates (src in {a peer, self, stranger}, dest in {any, seed, validator, peer, other}, ttl 0-3, registered/unregistered protocol, 3 contents) and 1-30 arrivals (template, relaying peer) with repeats, each parsed from wire bytes and given to the real onPacket. Non-trivial = a flooded digest arrives through >= 2 different peers or an unauthorized origin occurs, and at least one packet was delivered; distinct by full rendering")
 	defer rec.Flush(t)
-	ev.Check(t, 12000, 200000, func(rt *rapid.T) { c33Case(rt, rec) })
+	t.Run("relay", func(t *testing.T) {
+		ev.Check(t, 12000, 200000, func(rt *rapid.T) { c33Case(rt, rec) })
+	})
+	t.Run("window", func(t *testing.T) {
+		ev.Check(t, 40, 600, func(rt *rapid.T) { c33Window(rt, rec) })
+	})
+}
+
+// c33Window: "at most once no matter how many peers relay it" with other flooded traffic in between.
+// The node remembers flooded digests in a ring of DefaultPacketPoolNumBucket buckets of
+// DefaultPacketPoolBucketLen digests; the oldest bucket is recycled when the ring comes round. A digest
+// is therefore remembered for at least (NumBucket-1)*BucketLen-1 later distinct digests (worst case: it
+// was the entry that filled its bucket). Inside that distance a re-relay must never reach the
+// application again; beyond it the unchanged code forgets (labelled, not decided). The case draws the
+// number of digests before the watched packets (to place them anywhere in a bucket, incl. its last
+// slot and after the ring wrapped once or twice) and the number of digests between delivery and re-relay
+// with bias to the bucket and ring boundaries.
+func c33Window(rt *rapid.T, rec *ev.Rec) {
+	log := hnQuietLogger()
+	self := bytes.Repeat([]byte{0x51}, network.VerifPeerIDSize)
+	stranger := bytes.Repeat([]byte{0x52}, network.VerifPeerIDSize)
+	p2p := network.VerifNewP2P(self, log)
+	var got []uint64
+	cb := func(pkt *network.Packet, p *network.Peer) { got = append(got, network.VerifPacketFieldsOf(pkt).Hash) }
+	p2p.VerifSetCallback(c33Proto, cb)
+	var peers []*network.Peer
+	for i := 0; i < 3; i++ {
+		conn, _ := hnPipe()
+		id := bytes.Repeat([]byte{byte(0x61 + i)}, network.VerifPeerIDSize)
+		peers = append(peers, network.VerifNewPeer(conn, id, byte(module.RoleValidator), 1+byte(i), []module.ProtocolInfo{c33Proto}, log))
+	}
+	nb, bl := int(network.DefaultPacketPoolNumBucket), int(network.DefaultPacketPoolBucketLen)
+	ring := nb * bl
+	safe := (nb-1)*bl - 1 // re-relay after <= safe later digests must be suppressed
+	near := func(label string, centres []int, max int) int {
+		if rapid.IntRange(0, 4).Draw(rt, label+".uniform") == 0 {
+			return rapid.IntRange(0, max).Draw(rt, label)
+		}
+		c := rapid.SampledFrom(centres).Draw(rt, label+".centre")
+		v := c + rapid.IntRange(-2, 2).Draw(rt, label+".delta")
+		if v < 0 {
+			v = 0
+		}
+		if v > max {
+			v = max
+		}
+		return v
+	}
+	before := near("before", []int{0, bl - 1, bl, 2*bl - 1, ring - bl - 1, ring - bl, ring - 1, ring, ring + bl - 1, 2*ring - 1, 2 * ring}, 2*ring+bl)
+	nWatch := rapid.IntRange(1, 4).Draw(rt, "watched")
+	gap := near("gap", []int{0, 1, bl - 1, bl, bl + 1, safe / 2, safe - bl, safe - 1, safe}, safe+bl+3)
+	seq := uint32(0)
+	seen := map[uint64]bool{}
+	collisions := 0
+	send := func(payload []byte, via int) (uint64, int) {
+		f := network.VerifPacketFields{Src: stranger, Dest: network.VerifDestAny, TTL: 0, Protocol: uint16(c33Proto), Payload: payload}
+		wire, w := c30Write([]*c30pkt{{f: f}})
+		if w != "" {
+			ev.Inconclusive("C33: cannot serialise a packet: %s", w)
+		}
+		pkt := &network.Packet{}
+		if _, err := pkt.ReadFrom(bytes.NewReader(wire)); err != nil {
+			ev.Inconclusive("C33: cannot parse a packet the harness wrote: %v", err)
+		}
+		n0 := len(got)
+		p2p.VerifOnPacket(pkt, peers[via])
+		return network.VerifPacketFieldsOf(pkt).Hash, len(got) - n0
+	}
+	filler := func(n int) {
+		for i := 0; i < n; i++ {
+			seq++
+			h, d := send([]byte{'f', byte(seq >> 24), byte(seq >> 16), byte(seq >> 8), byte(seq)}, int(seq)%len(peers))
+			if seen[h] {
+				collisions++ // 64-bit digest collision between harness packets: distances are off by one
+				continue
+			}
+			seen[h] = true
+			if d != 1 {
+				ev.Inconclusive("C33: a fresh flooded packet was not delivered (%d deliveries); deliveries cannot be observed reliably", d)
+			}
+		}
+	}
+	desc := fmt.Sprintf("window: %d digests first, then %d watched packets, %d other digests, each watched packet relayed again by another peer (ring %dx%d, must-suppress distance <= %d)", before, nWatch, gap, nb, bl, safe)
+	filler(before)
+	var watched []uint64
+	for i := 0; i < nWatch; i++ {
+		h, d := send([]byte{'w', byte(i)}, 0)
+		if d != 1 || seen[h] {
+			ev.Inconclusive("C33: a watched packet was not delivered on first arrival")
+		}
+		seen[h] = true
+		watched = append(watched, h)
+	}
+	filler(gap)
+	decided, fail := 0, ""
+	for i := 0; i < nWatch; i++ {
+		// digests stored after watched packet i: the later watched ones, the gap, and re-relays that were stored again
+		dist := (nWatch - 1 - i) + gap + collisions
+		_, d := send([]byte{'w', byte(i)}, 1+i%2)
+		if dist <= safe-nWatch { // margin: a forgotten-and-stored-again earlier re-relay shifts later distances
+			decided++
+			if d != 0 && fail == "" {
+				fail = fmt.Sprintf("flooded packet w%d was handed to the application again when another peer relayed it after only %d other flooded packets", i, dist)
+			}
+		}
+	}
+	labels := []string{"window"}
+	if decided > 0 {
+		labels = append(labels, "window:decided")
+	} else {
+		labels = append(labels, "window:beyondRing-notDecided")
+	}
+	if before+nWatch+gap >= ring {
+		labels = append(labels, "window:ringWrapped")
+	}
+	if gap >= bl {
+		labels = append(labels, "window:crossedBucket")
+	}
+	rec.Case(desc, decided > 0 && gap >= bl, labels...)
+	if fail != "" {
+		rt.Fatalf("C33 violated: %s | case: %s", fail, desc)
+	}
 }
